@@ -84,3 +84,45 @@ package astvalidation
 //@   safety no-bounds
 //@   loop 0:
 //@     invariant !g_match && count(validationError) == old(count(validationError))
+
+// ----------------------------------------------------------------------------------------------
+// C04, field selection merging: whether two parent types can be the same runtime object decides how strictly two
+// fields with one response name are compared. The relation is symmetric: an object and an interface overlap exactly
+// when the object implements the interface, whichever of the two comes first in the document.
+//@ func fieldSelectionMergingVisitor.potentiallySameObject
+//@   requires f != nil && f.definition != nil
+//@   ghost var g_asked bool = false
+//@   ghost var g_res bool = false
+//@   at call Document.NodeImplementsInterfaceNode: assert {the.implements.relation.is.asked.for.the.object.and.the.interface.in.that.order} arg1.Kind == ast.NodeKindObjectTypeDefinition && arg2.Kind == ast.NodeKindInterfaceTypeDefinition && ((arg1 == left && arg2 == right) || (arg1 == right && arg2 == left))
+//@   at call Document.NodeImplementsInterfaceNode: ghost g_asked = true
+//@   at call Document.NodeImplementsInterfaceNode: ghost g_res = result
+//@   ensures {two.interfaces.may.overlap} left.Kind == ast.NodeKindInterfaceTypeDefinition && right.Kind == ast.NodeKindInterfaceTypeDefinition ==> result
+//@   ensures {interface.then.object.overlap.iff.implemented} left.Kind == ast.NodeKindInterfaceTypeDefinition && right.Kind == ast.NodeKindObjectTypeDefinition ==> g_asked && result == g_res
+//@   ensures {object.then.interface.overlap.iff.implemented} left.Kind == ast.NodeKindObjectTypeDefinition && right.Kind == ast.NodeKindInterfaceTypeDefinition ==> g_asked && result == g_res
+//@   modifies *
+//@   safety no-bounds
+
+// C04, variables in allowed positions (spec: IsVariableUsageAllowed / AreTypesCompatible). A default value relaxes
+// non-null only at the outermost level of the location type; below a list the item types must agree on nullability.
+// Pinned: (1) a nullable variable does not fit a non-null location without a default, (2) a list of nullable items
+// never fits a list of non-null items, whatever the defaults.
+//@ func valuesVisitor.operationTypeSatisfiesDefinitionType
+//@   requires v != nil && v.operation != nil && v.definition != nil && operationTypeRef >= 0 && definitionTypeRef >= 0
+//@   assumes {the.type.names.of.both.documents.are.in.range} (forall t in 0..len(v.operation.Types) :: v.operation.Types[t].Name.Start <= v.operation.Types[t].Name.End && v.operation.Types[t].Name.End <= len(v.operation.Input.RawBytes)) && (forall t in 0..len(v.definition.Types) :: v.definition.Types[t].Name.Start <= v.definition.Types[t].Name.End && v.definition.Types[t].Name.End <= len(v.definition.Input.RawBytes))
+//@   assumes {type.references.are.in.range.or.minus.one} operationTypeRef < len(v.operation.Types) && definitionTypeRef < len(v.definition.Types) && (forall t in 0..len(v.operation.Types) :: v.operation.Types[t].OfType >= 0 - 1 && v.operation.Types[t].OfType < len(v.operation.Types)) && (forall t in 0..len(v.definition.Types) :: v.definition.Types[t].OfType >= 0 - 1 && v.definition.Types[t].OfType < len(v.definition.Types))
+//@   let o0 = operationTypeRef
+//@   let d0 = definitionTypeRef
+//@   let ok = v.operation.Types[operationTypeRef].TypeKind
+//@   let dk = v.definition.Types[definitionTypeRef].TypeKind
+//@   let oi = v.operation.Types[operationTypeRef].OfType
+//@   let di = v.definition.Types[definitionTypeRef].OfType
+//@   let pin1 = ok != ast.TypeKindNonNull && dk == ast.TypeKindNonNull && !hasDefaultValue
+//@   let pin2 = ok == ast.TypeKindList && dk == ast.TypeKindList && oi >= 0 && di >= 0 && v.operation.Types[oi].TypeKind != ast.TypeKindNonNull && v.definition.Types[di].TypeKind == ast.TypeKindNonNull
+//@   ensures {a.nullable.variable.does.not.fit.a.non.null.location.without.a.default} pin1 ==> !result
+//@   ensures {nullable.items.never.fit.non.null.items.a.default.relaxes.only.the.outermost.level} pin2 ==> !result
+//@   pure
+//@   safety no-bounds
+//@   loop 0:
+//@     invariant operationTypeRef >= 0 - 1 && operationTypeRef < len(v.operation.Types) && definitionTypeRef >= 0 - 1 && definitionTypeRef < len(v.definition.Types)
+//@     invariant pin1 ==> operationTypeRef == o0 && definitionTypeRef == d0
+//@     invariant pin2 ==> (operationTypeRef == o0 && definitionTypeRef == d0) || (operationTypeRef == oi && definitionTypeRef == di)
